@@ -258,15 +258,17 @@ def c11_streams(ctx):
     return [s, glob_base_stream("C11", ctx)]
 
 PLANS["C11"] = dict(
-    modules=["Wx.Glob.C11", "Wx.Glob.C11Inst"],
-    theorems=["Sp.C11.no_paths_pass", "Sp.C11.whitelisted_pass", "Sp.C11.igf_rejects", "Sp.C11.check_iff", "Sp.C11.wanted_iff", "Sp.C11.wanted_empty",
+    modules=["Wx.Glob.C11", "Wx.Glob.C11Inst", "Wx.Glob.GlobThm"],
+    theorems=["Sp.Glob.parseGo_fuel", "Sp.Glob.addLine_ok", "Sp.Glob.addLine_name", "Sp.Glob.name_matches", "Sp.Glob.addLine_star_ext", "Sp.Glob.star_ext_matches", "Sp.Glob.addLine_rooted", "Sp.Glob.rooted_matches", "Sp.Glob.addLine_inner_slash", "Sp.Glob.addLine_dir_contents", "Sp.Glob.dir_contents_matches", "Sp.Glob.recPrefix_lits_iff", "Sp.Glob.star_ext_iff", "Sp.Glob.dir_contents_iff", "Sp.Glob.parse_plain",
+              "Sp.C11.no_paths_pass", "Sp.C11.whitelisted_pass", "Sp.C11.igf_rejects", "Sp.C11.check_iff", "Sp.C11.wanted_iff", "Sp.C11.wanted_empty",
               "Sp.C11.ignore_precedence", "Sp.C11.verdict_append", "Sp.C11.verdict_insert", "Sp.C11.ignore_monotone", "Sp.C11.empty_passes",
               "Sp.GS.c11_no_paths", "Sp.GS.c11_whitelisted", "Sp.GS.c11_empty_config"],
     bins=[("lib", ["wxglobset", "wxglob"])],
     streams=c11_streams,
     sources=["crates/filterer/globset/src/lib.rs", "crates/filterer/ignore/src/lib.rs"],
     rule="a case is one filterer configuration with six events; non-trivial = the six verdicts are not all equal; distinct by (configuration, observation)",
-    assumptions=["the glob matcher, Path::extension and the ignore-file layer are parameters of the theorems (Env); their concrete models are validated by the streams"],
+    assumptions=["the glob matcher, Path::extension and the ignore-file layer are parameters of the theorems (Env); their concrete models are validated by the streams",
+                 "the glob model (Wx/Glob/Glob.lean: add_line pre-processing, globset parser, matcher) is tied to the real `ignore` crate by the glob stream; what it MEANS on the property's grammar (name, *.ext, /rooted, a/b, x/**, with ! and trailing /) is proved (Wx/Glob/GlobThm.lean): the token list each line parses to and exactly which relative paths it matches, for every name / extension / path"],
 )
 
 def c14_streams(ctx):
